@@ -13,9 +13,9 @@ PROP = "C25"
 NT_POOL = ["__0", "__1", "__S", "__Symbol", "__Nonterminal", "__parse__S", "__StateMachine", "__action0", "__action1", "__reduce0", "__state", "__lookahead",
            "__tokens", "__sym0", "__sym1", "__Variant0", "__Variant1", "__ToTriple", "__TERMINAL", "__ACTION", "__goto", "__token_to_integer", "__symbols", "__start",
            "__end", "__lookbehind", "__temp0", "__nt", "__result", "__next_state", "__pop_Variant0", "__simulate_reduce", "__expected_tokens", "__intern_token",
-           "__lalrpop_util", "__ascent", "__custom0", "__GT", "___", "____x", "Parser", "SParser", "Token", "__Token", "__ParseError", "__Matcher"]
+           "__lalrpop_util", "__ascent", "__custom0", "__GT", "___", "____x", "___0", "___1", "___S", "___Symbol", "___action0", "___lookahead", "___sym0", "___parse___S", "____0", "Parser", "SParser", "Token", "__Token", "__ParseError", "__Matcher"]
 BIND_POOL = ["__0", "__1", "__2", "__3", "__4", "__5", "__sym0", "__sym1", "__sym2", "__lookahead", "__lookbehind", "__start0", "__end0", "__temp0", "__temp1",
-             "__nt", "__symbols", "__states", "__action", "__tokens", "___", "__result", "__v", "__e", "v", "e", "__start", "__end"]
+             "__nt", "__symbols", "__states", "__action", "__tokens", "___", "___0", "___1", "___2", "___lookahead", "___lookbehind", "___sym0", "____0", "__result", "__v", "__e", "v", "e", "__start", "__end"]
 
 
 def rename_g(g, ntmap):
